@@ -65,3 +65,81 @@ def merge_rules(res, tmp, rules) -> None:
         if any(e.startswith(r) or f" {r} " in e or e.startswith(f"{r}:")
                for r in rules) and e not in res.errors:
             res.errors.append(e)
+
+
+CHANGE_SETTERS = ("set_atom_stereo_change", "set_bond_stereo_change")
+ROLE_KEYS = ("formed", "broken", "fleeting")
+
+
+def check_setter_once(prog: Program, res, functions, label: str) -> None:
+    """R-SETTER-ONCE: set_atom_stereo_change / set_bond_stereo_change replace
+    the whole change entry of a centre (every role that is not passed is
+    reset).  A call that passes ONE role and sits in a loop over the roles of
+    one change dictionary (`for role, stereo in change_dict.items()`) keeps
+    only the role visited last."""
+    from ..core import norm
+    res.rule("R-SETTER-ONCE", "the change setters replace the whole entry of "
+             "a centre: they are called once per centre with all its roles, "
+             "never once per role inside a loop over the roles of one change "
+             "dictionary")
+    n = 0
+    for fi in functions:
+        if fi is None:
+            continue
+        for call in ast.walk(fi.node):
+            if not (isinstance(call, ast.Call) and isinstance(
+                    call.func, (ast.Attribute, ast.Name))):
+                continue
+            fname = call.func.attr if isinstance(
+                call.func, ast.Attribute) else call.func.id
+            if fname not in CHANGE_SETTERS:
+                continue
+            n += 1
+            inst = f"{fi.short}: {norm(call, 70)} (line {call.lineno})"
+            # how many roles does the call pass?
+            roles: set[str] | None = set()
+            key_names: set[str] = set()
+            for k in call.keywords:
+                if k.arg in ROLE_KEYS:
+                    roles.add(k.arg)
+                elif k.arg is None:
+                    v = k.value
+                    if isinstance(v, ast.Dict) and len(v.keys) == 1 and \
+                            v.keys[0] is not None:
+                        roles.add("<one>")
+                        key_names |= {x.id for x in ast.walk(v.keys[0])
+                                      if isinstance(x, ast.Name)}
+                    else:
+                        roles = None      # a dictionary of several roles
+                        break
+            if roles is None or len(roles) != 1:
+                res.ok("R-SETTER-ONCE", inst, fi.loc(call))
+                continue
+            # inside a loop over the (role, descriptor) items of a mapping?
+            per_role = None
+            for a in ancestors(call):
+                if isinstance(a, ast.For) and isinstance(
+                        a.iter, ast.Call) and isinstance(
+                        a.iter.func, ast.Attribute) and \
+                        a.iter.func.attr == "items" and isinstance(
+                        a.target, ast.Tuple) and len(a.target.elts) == 2:
+                    kvar = a.target.elts[0]
+                    if isinstance(kvar, ast.Name) and (
+                            kvar.id in key_names or "<one>" not in roles):
+                        # a single explicit role keyword inside such a loop is
+                        # only per-role when the loop variable selects it
+                        if "<one>" in roles:
+                            per_role = a
+                        break
+            if per_role is not None:
+                res.bad("R-SETTER-ONCE", f"{fi.short}: {norm(call, 70)}",
+                        fi.loc(call), f"{label}: `{norm(call, 70)}` passes "
+                        "one role per call inside `for "
+                        f"{norm(per_role.target)} in {norm(per_role.iter)}`: "
+                        "the setter replaces the whole change entry, so of a "
+                        "centre with several roles (broken + formed, "
+                        "fleeting) only the one visited last survives",
+                        instance=inst)
+            else:
+                res.ok("R-SETTER-ONCE", inst, fi.loc(call))
+    res.need("R-SETTER-ONCE", n, 1, "change setter calls")
